@@ -32,7 +32,7 @@ Section Entry.
   Definition run_v2m xs := need 21 xs (fun a => outr 36 (k_voigt_vector_to_matrix a)).
   Definition run_rotate (xs : list F) : res (list F) :=
     if Nat.eqb (length xs) 90 then
-      let '(t, r) := take 81 xs in out 81 (k_rotate (aol t) (aol r))
+      let '(t, r) := take 81 xs in out 81 (rotate4 (aol t) (aol r))
     else Err OtherError.
   (* polar_decompose over the recorded SVD:  U(9) S(3) Vh(9)  /  M(9) S(3) Vh(9) *)
   Definition run_polar_left (xs : list F) : res (list F) :=
